@@ -610,6 +610,23 @@ let () =
                         fail "c20" (Printf.sprintf "f%d x=%d: the entry stored by the resumed call is born at %d ms, the call resumed at %d ms" f x born (int_of_n now))
                       | _ -> ())
                   | None -> ());
+               (* a resumed store that REPLACES an entry (another call stored the key meanwhile) evicts nothing;
+                  the queue holds every stored key once; a result too large to be cached leaves no entry for its key *)
+               if has "c20" && field "panic" = None then begin
+                 (match List.find_opt (fun wi -> wi.wf = f && wi.wtid = -1) instances, Hashtbl.find_opt prev_inst (f, -1) with
+                  | Some wi, Some p ->
+                    let okb = (match ci.ci_body with ROk _ -> true | RErr _ -> false) in
+                    let fits = (match fn.w.w_cfg.maxmem with None -> true | Some m -> size <= int_of_n m) in
+                    let gone = List.filter (fun (k, _) -> k <> x && not (List.mem_assoc k wi.wstore)) p.wstore in
+                    if List.mem_assoc x p.wstore && fn.w.w_cfg.maxmem = None && gone <> [] then
+                      fail "c20" (Printf.sprintf "f%d x=%d: the resumed call only replaced the entry of its key, yet %d other entries were evicted" f x (List.length gone));
+                    if List.sort compare wi.wq <> List.sort compare (List.map fst wi.wstore) then
+                      fail "c20" (Printf.sprintf "f%d: after the resumed call the order queue [%s] and the stored keys disagree" f
+                                    (String.concat "," (List.map string_of_int wi.wq)));
+                    if impl_store_decision fn okb ci.ci_cif && (not fits) && List.mem_assoc x wi.wstore then
+                      fail "c20" (Printf.sprintf "f%d x=%d: the resumed call's result is too large to be cached, yet an entry for its key is still stored" f x)
+                  | _ -> ())
+               end;
                (* "if the call is resumed later it stores its result normally": a result the store decision
                   accepts and that fits is afterwards THE entry of its key — this value, born now, at the back
                   of the queue (the async engine evicts before it inserts, so nothing can remove it at once) *)
@@ -721,6 +738,21 @@ let () =
          let ksel id = List.concat (List.filter_map (fun (n, ks) -> if n = int_of_n id then Some ks else None) table) in
          let (w', n) = invalidate_all_with ksel !world in
          set_world w'; nontrivial := true;
+         if has "frame" then
+           (* per cache name: exactly the selected keys of THAT cache go (store and queue), everything else stays;
+              thread-scope instances are never touched *)
+           List.iter (fun wi ->
+               match Hashtbl.find_opt prev_inst (wi.wf, wi.wtid) with
+               | Some p ->
+                 let sel_here = if wi.wtid <> -1 then [] else List.map int_of_n (ksel (n_of_int (intern fns.(wi.wf).name))) in
+                 let want_store = List.filter (fun (k, _) -> not (List.mem k sel_here)) p.wstore in
+                 let want_q = List.filter (fun k -> not (List.mem k sel_here)) p.wq in
+                 if wi.wstore <> want_store then
+                   fail "frame" (Printf.sprintf "invalidate_all_with: f%d/%d does not hold exactly the entries its own predicate verdicts leave (selected here: [%s])"
+                                   wi.wf wi.wtid (String.concat "," (List.map string_of_int sel_here)))
+                 else if wi.wq <> want_q then
+                   fail "frame" (Printf.sprintf "invalidate_all_with: the order queue of f%d/%d is not the old one without the removed keys" wi.wf wi.wtid)
+               | None -> ()) instances;
          if rl <> ["count"; string_of_int (int_of_n n)] then
            set_verdict (Printf.sprintf "MISMATCH %d invall model=count %d impl=%s" !evidx (int_of_n n) !got_r)
        | ("sget" | "sgetn"), a :: _ ->
